@@ -147,6 +147,7 @@ const (
 	pipePlain = iota
 	pipeManagedDecorate
 	pipeManagedParse
+	pipeFragment    // DecorateNode of one isolated declaration through the shared identifier resolver (no *ast.File reaches the resolver)
 	pipeParseShared // plain ParseFile + Fprint of a possibly corrupted source into the FileSet all workers share
 	pipeSave        // a decorator.Package whose FileSet is shared with the other workers' packages (as the packages of one decorator.Load share theirs), saved to a private disk
 	numPipeKinds
@@ -289,6 +290,32 @@ func execOnce(p pipeSpec, e env, y func(string), out *[]opResult, shared *parsed
 			err = decorator.Fprint(&buf, f)
 		}
 		*out = append(*out, opResult{Op: "print", Out: buf.String(), Err: errClass(err)})
+		return
+	}
+	if p.kind == pipeFragment {
+		yield("op:fragment")
+		fset := token.NewFileSet()
+		af, err := parser.ParseFile(fset, "w.go", p.src, parser.ParseComments)
+		if err != nil {
+			panic("harness: generated source does not parse: " + err.Error())
+		}
+		var target ast.Node
+		for _, d := range af.Decls {
+			if gd, ok := d.(*ast.GenDecl); ok && gd.Tok == token.IMPORT {
+				continue
+			}
+			target = d
+		}
+		if target == nil {
+			*out = append(*out, opResult{Op: "fragment", Err: "no declaration"})
+			return
+		}
+		n, err := decorator.NewDecoratorWithImports(fset, LocalPath, &faults.Ident{Inner: e.ident, Yield: y}).DecorateNode(target)
+		r := opResult{Op: "fragment", Err: errClass(err)}
+		if n != nil {
+			r.Out = dump.String(n, dump.Options{})
+		}
+		*out = append(*out, r)
 		return
 	}
 	if p.kind == pipeParseShared {
@@ -443,7 +470,7 @@ func drawPipe(run *core.Run, conflicts bool, noBroken ...bool) pipeSpec {
 		}
 		p.src = string(cur)
 	}
-	if p.kind != pipePlain && p.kind != pipeParseShared && p.big == "" {
+	if p.kind != pipePlain && p.kind != pipeParseShared && p.kind != pipeFragment && p.big == "" {
 		p.script = edits.Script(t, 3, conflicts, !noExotic)
 		if t.Bool(1, 3) {
 			p.alias = map[string]string{}
@@ -674,7 +701,7 @@ func runScheduled(run *core.Run) {
 			var alias map[string]string
 			var extras, have bool
 			for j := range ps {
-				if ps[j].kind == pipePlain || ps[j].kind == pipeSave || ps[j].kind == pipeParseShared {
+				if ps[j].kind == pipePlain || ps[j].kind == pipeSave || ps[j].kind == pipeParseShared || ps[j].kind == pipeFragment {
 					continue
 				}
 				if !have {
@@ -947,7 +974,7 @@ func runRepeat(run *core.Run) {
 	}
 	conflicts := true
 	p := drawPipe(run, conflicts, true)
-	if p.kind == pipePlain || p.kind == pipeSave || p.kind == pipeParseShared {
+	if p.kind == pipePlain || p.kind == pipeSave || p.kind == pipeParseShared || p.kind == pipeFragment {
 		p.kind = pipeManagedDecorate
 		p.script = edits.Script(t, 3, true)
 	}
@@ -970,6 +997,15 @@ func runRepeat(run *core.Run) {
 		}
 	}
 	p.extras = t.Bool(1, 3)
+	if p.extras {
+		// declarations that are removed from the file but still referenced by Objects are restored
+		// after it, one after the other: their positions show the order they were visited in
+		sp := gen.Source(t, gen.Options{MaxImports: 4, MaxDecls: 7, Conflicts: true})
+		if sp.Decls >= 4 {
+			p.src = sp.Src
+			p.script = append([]edits.Edit{{Kind: edits.RemoveDecl, N: t.Draw(8)}, {Kind: edits.RemoveDecl, N: t.Draw(8)}, {Kind: edits.RemoveDecl, N: t.Draw(8)}}, p.script...)
+		}
+	}
 	p.reps = 1
 	if p.sameAst {
 		p.reps = 2 // the same *ast.File through the same resolver instance, twice
